@@ -9,6 +9,10 @@ NOTE = ("Trusted: Lean 4.33 kernel; axioms propext, Classical.choice, Quot.sound
         "harness/translate.py; the correspondence check (differential testing, generator quality bounds what it sees). ")
 
 CHECKS = {
+    "C20": dict(
+        text="Proved on the model of both phases of to_circuitikz (layout in exact quarter/whole units, one command per dictionary entry): for every circuit whose parallel connections have at least two branches - everything parse_cdc and the builder return - the source is produced, the start_y == end_y error branch is unreachable at any depth/width (tikz_total), and whenever the export succeeds the number of component commands equals the number of elements, containers counted once (component_count); a single-branch parallel does fail (single_branch_parallel_fails, known finding F13). Tie: every drawing command and coordinate of the real to_circuitikz compared with the model for exhaustive small topologies (incl. shapes only object construction can produce) and random larger circuits. PARTIAL: component names, begin/end balance, and the existence of to_sympy / to_latex / to_drawing and their variable sets are checked on the implementation only.",
+        ref="§4 C20", tech=TECH_H,
+        note=NOTE + "sympy, schemdraw and matplotlib are runtime."),
     "C16": dict(
         text="Proved on the model of the traversal and identifier generation: every element object reachable from the circuit, nested in containers at any depth, is visited exactly once (elements_nodup_complete); the running identifiers are exactly 0..N-1 in traversal order (running_ids_are_range); for every type the per-type identifiers are 1..k without gaps (type_counts_from_one); '{parameter}_{index}' names are injective for arbitrary parameter symbols and the index can be read back by splitting at the last underscore (param_names_injective). Tie: traversal order, both identifier maps and display names compared with the real methods for exhaustive small and random circuits (nested containers, repeated types, shared objects). PARTIAL: uniqueness of display names in the presence of labels and the use of the same maps by the consumers (fit identifiers; sympy variables and diagram labels via C20) are checked on the implementation.",
         ref="§4 C16", tech=TECH_H,
